@@ -295,4 +295,51 @@ theorem C09_quiescent (s : GState) (hi : Inv s) (hc : s.cap > 0) (hq : s.quiesce
 example : (grun (GState.init 1) [.arrive 1, .arrive 2, .arrive 3, .grant 1, .cancel 2, .exit 1 .panic, .grant 3]).map
     (fun s => (s.slots, s.inside.map (·.1), s.waiting)) = some (1, [3], []) := by decide
 
+/-! ## `Engine.Render` as the gate model was written against it
+
+`Gen.renderSkeleton`: the control skeleton of `Engine.Render` and `Engine.RenderPartials` - every `if` condition, the `select`
+with its two communications, the deferred release, every `return`, in source order with nesting depth - regenerated from
+pugjs/engine.go on every run. Between taking the slot (`comm send e.ratelimit`) and installing its release (`defer` with
+`recv e.ratelimit`) there is no way out of the function; every later `return` runs the deferred release. An added early return,
+a moved `defer`, a changed condition reopens the obligation. -/
+
+def expectedRenderSkeleton : List (String × String) :=
+  [("Render", "0 defer span.End"),
+   ("Render", "0 if cap(e.ratelimit) > 0"),
+   ("Render", "1 select "),
+   ("Render", "2 comm recv <-ctx.Done()"),
+   ("Render", "3 return nil, fmt.Errorf(\"template %s wait failed: %w\", templateName, ctx.Err())"),
+   ("Render", "2 comm send e.ratelimit"),
+   ("Render", "1 defer (func() literal)"),
+   ("Render", "2 recv e.ratelimit"),
+   ("Render", "0 range p"),
+   ("Render", "0 if len(p) >= 2 && p[len(p) - 2] != page"),
+   ("Render", "0 if atomic.LoadInt32(&e.templatesLoaded) == 0 && !e.Debug"),
+   ("Render", "1 if err != nil && atomic.LoadInt32(&e.templatesLoaded) == 0"),
+   ("Render", "2 return nil, err"),
+   ("Render", "0 else "),
+   ("Render", "1 if e.Debug"),
+   ("Render", "2 if err != nil"),
+   ("Render", "3 return nil, err"),
+   ("Render", "0 if !ok"),
+   ("Render", "1 return nil, errors.Errorf(`Template %s not found!`, templateName)"),
+   ("Render", "0 if err != nil"),
+   ("Render", "1 range strings.Split(e.TemplateCode[templateName], \"\\n\")"),
+   ("Render", "1 return nil, errors.New(errstr)"),
+   ("Render", "0 return result, nil"),
+   ("RenderPartials", "0 range partials"),
+   ("RenderPartials", "1 if err != nil"),
+   ("RenderPartials", "2 return nil, err"),
+   ("RenderPartials", "0 return res, nil")]
+
+/-- **C09 / C10 / C17 (the models' tie to `Engine.Render`).** -/
+theorem C09_render_skeleton : Gen.renderSkeleton_ok = true ∧ Gen.renderSkeleton = expectedRenderSkeleton := by
+  constructor <;> decide
+
+/-- nothing stands between taking the slot and installing its release: in the skeleton the `defer` follows the send directly -/
+theorem C09_release_installed_at_once :
+    ∃ pre post, Gen.renderSkeleton = pre ++ [("Render", "2 comm send e.ratelimit"), ("Render", "1 defer (func() literal)"),
+      ("Render", "2 recv e.ratelimit")] ++ post :=
+  ⟨Gen.renderSkeleton.take 5, Gen.renderSkeleton.drop 8, by decide⟩
+
 end Pug.Props.C09
